@@ -1,7 +1,12 @@
 """Human-written level text per claimed property (consumed by gen_manifest.py)."""
-HOOK_COMMITS = ["e648131", "c2c8839", "e6e5513", "64250c5", "03f0d10", "cd92619"]
+HOOK_COMMITS = ["e648131", "c2c8839", "e6e5513", "64250c5", "03f0d10", "cd92619", "c0197ee"]
 NOT_YET = {}
 META = {
+    "C27": {
+        "text": "Theorems over every interleaving of any number of callers with the kernel's completions (any order, any time, any result), by an inductive invariant: no completion is ever dropped (C27_no_completion_dropped); a caller that returns returns the errno translation of a value the kernel produced for the request carrying its own token (C27_own_result); negative completions become -1 with errno = -result (C27_errno); a completion touches only the slot registered under its own token (C27_completion_frame); the order the code had before the fix loses the completion taken between submit and register (C27_old_order_drops). Tie: the harness built with the io_uring feature runs real hooked write/read pairs and erroneous calls from task coroutines and plain threads through the real rings and checks every result. Known findings: several event loops; several threads submitting to one ring.",
+        "note": "Trusted: Lean kernel; hand-written routing model; io-uring crate and kernel; pause hook. Partial: the ring itself (SQ/CQ memory protocol, SQPOLL) is trusted, not modelled.",
+        "design_ref": "DESIGN.md I.3 / §4 C27",
+    },
     "C28": {
         "text": "Closed-form theorems over all Nat (superset of u64/u128) durations, clocks and timeval fields: deadlines saturate, slices fit/sum/terminate/count, zero limit = unlimited. Proof is the right level: the property is pure arithmetic over an unbounded domain; the model is 3 small functions mirrored line by line and compared with the real functions on boundary-heavy inputs every run.",
         "note": "Trusted: Lean kernel; hand-written model of get_timeout_time/get_slices/get_time_limit; differential harness (virtual clock hook in common::now(), accessor for the crate-private get_time_limit); std::time::Duration arithmetic.",
